@@ -157,6 +157,12 @@ func (e *Engine) Solve(o *Obligation, solvers []string, timeout time.Duration, d
 	defer cancel()
 	var mu sync.Mutex
 	var wg sync.WaitGroup
+	nz, nzTotal := 0, 0
+	for _, s := range solvers {
+		if strings.HasPrefix(s, "z3") {
+			nzTotal++
+		}
+	}
 	for _, s := range solvers {
 		wg.Add(1)
 		go func(s string) {
@@ -168,6 +174,16 @@ func (e *Engine) Solve(o *Obligation, solvers []string, timeout time.Duration, d
 			r := runSolver(ctx, s, queries[kind], timeout)
 			mu.Lock()
 			defer mu.Unlock()
+			if strings.HasPrefix(s, "z3") && (r.Answer == "unknown" || r.Answer == "sat") {
+				// when every z3 has given up quickly (E-matching saturated), cvc5 gets a short grace period only
+				nz++
+				if nz == nzTotal && e.Grace > 0 {
+					go func() {
+						time.Sleep(e.Grace)
+						cancel()
+					}()
+				}
+			}
 			if ctx.Err() != nil && r.Answer != "unsat" && r.Answer != "sat" {
 				r.Answer = "cancelled"
 			}
